@@ -162,6 +162,12 @@ impl SpanBuilder {
     /// - The span builder is consumed in the process.
     pub fn extract_final_span_into(mut self, target: &mut Vec<CodeBlock>) {
         self.ops.append(&mut self.epilogue);
+        if self.ops.is_empty() && !self.decorators.is_empty() && target.is_empty() {
+            // a body consisting only of decorators (e.g. `emit`, `trace`, `debug`, advice
+            // injectors): compile it like an empty body (a single NOOP) and attach the decorators
+            // to that NOOP
+            self.ops.push(Operation::Noop);
+        }
         self.extract_span_into(target);
     }
 }
